@@ -1,4 +1,5 @@
 import Tickit.Model.Rect
+import Tickit.Model.Width
 /-
   The *abstract* render buffer the window layer needs (properties C01, C02).
 
@@ -47,6 +48,37 @@ def Cell.blank (p : Pen) : Cell := Cell.ofPen p 32
 /-- The cell of a terminal position nothing was ever written to. -/
 def Cell.never : Cell := ⟨32, -1, -1, false⟩
 
+/-- What a buffer cell holds.  A cell of an erase, a character or a text of single-column characters is `plain`: what
+    reaches the terminal is known when it is written.  A cell of a text with double-width or combining characters
+    (`text`) remembers which write it belongs to (`id`, unique per `put_string` call), the text and its own column `k`
+    in it: whether a double-width character can be shown is only known at flush time — both its columns must still
+    belong to that write (a run cut inside the character by a clip, mask or window edge, or by a later overwrite, shows a
+    blank in the text's pen: `src/renderbuffer.c` flush_to_term after the fix e59d9fc, `Model/RBFlush.lean` `wantOf`). -/
+inductive CellV where
+  | plain (c : Cell)
+  | text (id : Nat) (pen : Pen) (s : List Nat) (k : Int)
+deriving Repr, Inhabited
+
+/-- Columns of a text: for every grapheme (a code point of positive width with the zero-width code points that
+    follow it) its first code point, first column and width.  (`tickit_utf8_ncount` with the library's width tables.) -/
+def layoutFrom : List Nat → Int → List (Nat × Int × Int)
+  | [], _ => []
+  | cp :: rest, col =>
+    let w := Width.wcwidth cp
+    if w > 0 then (cp, col, w) :: layoutFrom rest (col + w) else layoutFrom rest col
+
+def layout (s : List Nat) : List (Nat × Int × Int) := layoutFrom s 0
+
+/-- Total columns of a text (`endpos.columns` of `put_string`). -/
+def textCols (s : List Nat) : Int := (layout s).foldl (fun acc g => acc + g.2.2) 0
+
+/-- Every code point is one column wide (then no run can be cut inside a character). -/
+def narrowText (s : List Nat) : Bool := s.all (fun cp => Width.wcwidth cp == 1)
+
+/-- The grapheme covering column `k`. -/
+def colGlyph (s : List Nat) (k : Int) : Option (Nat × Int × Int) :=
+  (layout s).find? (fun g => decide (g.2.1 ≤ k) && decide (k < g.2.1 + g.2.2))
+
 /-- `RBStack`: a frame pushed by `save` (`penOnly = false`) or `savepen`. -/
 structure Frame where
   xl : Int
@@ -59,7 +91,7 @@ deriving Repr, Inhabited
 structure RB where
   lines : Int
   cols : Int
-  cells : Int → Int → Option Cell
+  cells : Int → Int → Option CellV
   xl : Int
   xc : Int
   /-- `clip.lines = 0` is the C marker for "nothing can be drawn". -/
@@ -70,6 +102,8 @@ structure RB where
       depth exceeds the new depth, which is the same thing because depths only grow between restores. -/
   masks : List (Rect × Nat)
   stack : List Frame
+  /-- identity of the next text write -/
+  nextId : Nat := 0
 deriving Inhabited
 
 /-- `tickit_renderbuffer_new`. -/
@@ -130,30 +164,33 @@ def RB.restore (rb : RB) : RB :=
 
 /-- One run of cells `[col, col + n)` on line `line` (coordinates relative to the translation) receives `f k` for the
     `k`-th cell of the run, wherever the buffer lets it (`put_string` / `erase` / `skip` / `put_char`). -/
-def RB.putRun (rb : RB) (line col n : Int) (f : Int → Option Cell) : RB :=
+def RB.putRun (rb : RB) (line col n : Int) (f : Int → Option CellV) : RB :=
   let L := line + rb.xl
   let C0 := col + rb.xc
   { rb with cells := fun l c =>
       if l = L ∧ C0 ≤ c ∧ c < C0 + n ∧ rb.writable l c then f (c - C0) else rb.cells l c }
 
 /-- The same for a rectangle of cells (the `for(line …)` loop of `eraserect` / `skiprect`). -/
-def RB.putRect (rb : RB) (rect : Rect) (v : Option Cell) : RB :=
+def RB.putRect (rb : RB) (rect : Rect) (v : Option CellV) : RB :=
   let R := rect.translate rb.xl rb.xc
   { rb with cells := fun l c => if R.memb l c ∧ rb.writable l c then v else rb.cells l c }
 
 /-- `tickit_renderbuffer_eraserect`. -/
-def RB.eraseRect (rb : RB) (rect : Rect) : RB := rb.putRect rect (some (Cell.blank rb.pen))
+def RB.eraseRect (rb : RB) (rect : Rect) : RB := rb.putRect rect (some (.plain (Cell.blank rb.pen)))
 
 /-- `tickit_renderbuffer_skiprect`. -/
 def RB.skipRect (rb : RB) (rect : Rect) : RB := rb.putRect rect none
 
-/-- `tickit_renderbuffer_textn_at` for ASCII text (one column per byte). -/
+/-- `tickit_renderbuffer_textn_at` (`s`: the code points of a valid text without control characters). -/
 def RB.textAt (rb : RB) (line col : Int) (s : List Nat) : RB :=
-  rb.putRun line col s.length (fun k => some (Cell.ofPen rb.pen (s.getD k.toNat 32)))
+  if narrowText s then
+    rb.putRun line col s.length (fun k => some (.plain (Cell.ofPen rb.pen (s.getD k.toNat 32))))
+  else
+    { rb.putRun line col (textCols s) (fun k => some (.text rb.nextId rb.pen s k)) with nextId := rb.nextId + 1 }
 
 /-- `tickit_renderbuffer_char_at`. -/
 def RB.charAt (rb : RB) (line col : Int) (cp : Nat) : RB :=
-  rb.putRun line col 1 (fun _ => some (Cell.ofPen rb.pen cp))
+  rb.putRun line col 1 (fun _ => some (.plain (Cell.ofPen rb.pen cp)))
 
 /-- `tickit_renderbuffer_clear`: `erase(rb, line, 0, rb->cols)` for every line, through the translation. -/
 def RB.clear (rb : RB) : RB := rb.eraseRect ⟨0, 0, rb.lines, rb.cols⟩
@@ -182,9 +219,29 @@ def RB.draw (rb : RB) : DrawOp → RB
 
 def RB.run (rb : RB) (prog : List DrawOp) : RB := prog.foldl RB.draw rb
 
+/-- Does cell `(l, c)` hold column `k` of text write `id`? -/
+def RB.holds (rb : RB) (l c : Int) (id : Nat) (k : Int) : Bool :=
+  match rb.cells l c with
+  | some (.text id' _ _ k') => id' == id && k' == k
+  | _ => false
+
+/-- What the flush sends to the terminal for cell `(l, c)`; `none` = nothing (SKIP). -/
+def RB.resolve (rb : RB) (l c : Int) : Option Cell :=
+  match rb.cells l c with
+  | none => none
+  | some (.plain x) => some x
+  | some (.text id pen s k) =>
+    match colGlyph s k with
+    | none => some (Cell.blank pen)
+    | some (cp, k0, w) =>
+      -- every column of the character must still belong to this write
+      if (List.range w.toNat).all (fun j => rb.holds l (c - k + k0 + (j : Int)) id (k0 + (j : Int))) then
+        some (Cell.ofPen pen (if k = k0 then cp else 0))
+      else some (Cell.blank pen)
+
 /-- `tickit_renderbuffer_flush_to_term` onto a grid terminal: every non-SKIP cell replaces the grid's cell. -/
 def RB.flushToGrid (rb : RB) (grid : Int → Int → Cell) : Int → Int → Cell :=
-  fun l c => match rb.cells l c with
+  fun l c => match rb.resolve l c with
     | some x => x
     | none => grid l c
 
